@@ -92,60 +92,4 @@ def writeFileWordsFx (e : Endian) : List (Layout × Mat) → Except WriteErr (Li
     let b ← writeFileWordsFx e t
     pure (a ++ b)
 
-/-! ## F3: every value in its field -/
-
-/-- `numform(value)` of the patched `_write_ascii_header`: `fmt % value`, or `fmt1 % value` with
-`fmt1 = '%{numlen}.{max(digits - 1, 0)}E'` when the former is wider than `numlen` -/
-def fmtEFx (d : Nat) (b : Nat) : List Char :=
-  if (fmtE d b).length > numlen d then padLeft (numlen d) (sciChars (d - 1) (sci (d - 1) b)) else fmtE d b
-
-def valueLinesFx (d : Nat) : Nat → List Nat → List Char
-  | _, [] => []
-  | fuel, ds =>
-    match fuel with
-    | 0 => []
-    | fuel + 1 =>
-      let p := perline d
-      ((ds.take p).flatMap (fmtEFx d)) ++ ['\n'] ++ (if ds.length ≤ p then [] else valueLinesFx d fuel (ds.drop p))
-
-def asciiTrailerFx (d : Nat) (ncols : Nat) : List Char :=
-  fmtInt 8 (ncols + 1) ++ fmtInt 8 1 ++ fmtInt 8 1 ++ ['\n'] ++ fmtEFx d sqrt2Bits ++ ['\n']
-
-def ascColDenseFx (d : Nat) (cplx : Bool) (c : Nat) (col : List Entry) : List Char :=
-  match nzIdx cplx col with
-  | [] => []
-  | s :: rest =>
-    let last := (s :: rest).getLast (by simp)
-    let seg := (col.drop s).take (last - s + 1)
-    let ds := segDs cplx seg
-    fmtInt 8 (c + 1) ++ fmtInt 8 (s + 1) ++ fmtInt 8 ds.length ++ ['\n'] ++ valueLinesFx d ds.length ds
-
-def ascColBigFx (d : Nat) (cplx : Bool) (c : Nat) (col : List Entry) : List Char :=
-  match strings cplx col with
-  | [] => []
-  | ss =>
-    fmtInt 8 (c + 1) ++ fmtInt 8 0 ++ fmtInt 8 (nwordsBig cplx ss) ++ ['\n'] ++
-      ss.flatMap fun s =>
-        let ds := segDs cplx s.2
-        fmtInt 8 (s.2.length * 2 * mult cplx + 1) ++ fmtInt 8 (s.1 + 1) ++ ['\n'] ++ valueLinesFx d ds.length ds
-
-def ascColNonbigFx (d : Nat) (cplx : Bool) (c : Nat) (col : List Entry) : List Char :=
-  match strings cplx col with
-  | [] => []
-  | ss =>
-    fmtInt 8 (c + 1) ++ fmtInt 8 0 ++ fmtInt 8 (nwordsNonbig cplx ss) ++ ['\n'] ++
-      ss.flatMap fun s =>
-        let ds := segDs cplx s.2
-        fmtInt 11 (packIS (s.1 + 1) (s.2.length * 2 * mult cplx)) ++ ['\n'] ++ valueLinesFx d ds.length ds
-
-/-- the ASCII file of the patched writer (the F3 patch leaves the strings of the ASCII layouts alone) -/
-def encMatAsciiFx (d : Nat) (lay : Layout) (m : Mat) : List Char :=
-  match lay with
-  | .dense => asciiHeader d m false ++ ascCols (ascColDenseFx d m.cplx) 0 m.cols ++ asciiTrailerFx d m.cols.length
-  | .bigmat => asciiHeader d m true ++ ascCols (ascColBigFx d m.cplx) 0 m.cols ++ asciiTrailerFx d m.cols.length
-  | .nonbigmat => asciiHeader d m false ++ ascCols (ascColNonbigFx d m.cplx) 0 m.cols ++ asciiTrailerFx d m.cols.length
-
-def encFileAsciiFx (d : Nat) (ms : List (Layout × Mat)) : List Char :=
-  ms.flatMap fun p => encMatAsciiFx d p.1 p.2
-
 end PyYetiVerif.Op4
